@@ -470,7 +470,7 @@ def replay_fresh_process(paths):
     if not paths:
         return {}, ""
     p = subprocess.run([os.path.join(VERIF, "check"), "replay", *paths], capture_output=True, text=True,
-                       timeout=1200)
+                       timeout=3600)
     ok = {}
     for line in p.stdout.splitlines():
         if line.startswith("REPRODUCED "):
@@ -724,7 +724,8 @@ def cmd_replay(paths):
         module = load_module(prop)
         if hasattr(module, "warm_light"):
             module.warm_light()
-        out = run_in_child(module, ep, keep_log=True)
+        # (cold numba compilation happens inside this child: generous timeout)
+        out = run_in_child(module, ep, keep_log=True, timeout=900)
         sig = ep.get("expect", {}).get("signature")
         print(f"REPLAY {path} property={prop} status={out['status']} digest={out.get('digest')}")
         for v in out.get("violations", []):
